@@ -194,6 +194,11 @@ func (c C07Reject) frameBytes() []byte {
 		return frame.RawFrame(c.Declared, body)
 	case "zlib-negative", "zlib-oversize", "zlib-below-threshold", "zlib-smaller-than-id":
 		return frame.Compressed(c.ID, payload, true, true, c.Declared)
+	case "zlib-padded-id":
+		// the packet id inside the compressed body is a padded (non-minimal) VarInt; the declared size is
+		// non-zero but smaller than the bytes that id occupies
+		pad := []byte{0x80 | byte(c.ID&0x7f), 0x80, 0x80, 0x00}
+		return frame.CompressedBody(append(pad, payload...), c.Declared)
 	case "zlib-oversize-real":
 		// a frame whose body really inflates to more than the protocol maximum, declared truthfully
 		return frame.Compressed(c.ID, payload, true, false, 0)
@@ -219,7 +224,7 @@ func c07CheckReject(c C07Reject) *pbt.Violation {
 
 func genReject(t *rapid.T) C07Reject {
 	c := C07Reject{ID: genID(t)}
-	c.Class = rapid.SampledFrom([]string{"plain-negative-size", "plain-oversize", "zlib-negative", "zlib-oversize", "zlib-oversize-real", "zlib-below-threshold", "zlib-smaller-than-id"}).Draw(t, "class")
+	c.Class = rapid.SampledFrom([]string{"plain-negative-size", "plain-oversize", "zlib-negative", "zlib-oversize", "zlib-oversize-real", "zlib-below-threshold", "zlib-smaller-than-id", "zlib-padded-id"}).Draw(t, "class")
 	il := idLen(c.ID)
 	switch c.Class {
 	case "plain-negative-size":
@@ -263,6 +268,16 @@ func genReject(t *rapid.T) C07Reject {
 		c.Declared = int32(total)
 		if int(c.Declared) >= c.Threshold || c.Declared <= 0 {
 			c.Threshold = int(c.Declared) + 1
+		}
+	case "zlib-padded-id":
+		c.Threshold = rapid.SampledFrom([]int{0, 1, 2}).Draw(t, "thr")
+		c.Len = rapid.IntRange(0, 20).Draw(t, "len")
+		c.Declared = int32(rapid.IntRange(1, 3).Draw(t, "declared"))
+		if int(c.Declared) < c.Threshold {
+			c.Declared = int32(c.Threshold)
+		}
+		if c.Declared < 1 {
+			c.Declared = 1
 		}
 	case "zlib-smaller-than-id":
 		c.Threshold = 0
